@@ -61,6 +61,20 @@ else:
     import gtirb_rewriting.gtirb_protobuf_compat.proto_4 as compat_proto
 
 
+def _symbol_choice_key(sym: gtirb.Symbol) -> Tuple[int, int, bool]:
+    """
+    Orders the symbols that share a name: symbols of blocks by position,
+    then symbols of proxy blocks, then the rest by value.
+    """
+    referent = sym.referent
+    if isinstance(referent, gtirb.ByteBlock):
+        address = referent.address
+        return (0, address if address is not None else -1, sym.at_end)
+    if referent is not None:
+        return (1, 0, sym.at_end)
+    return (2, sym.value or 0, sym.at_end)
+
+
 def _null_lookup(name: str) -> Iterator[gtirb.Symbol]:
     yield from ()
 
@@ -1960,8 +1974,11 @@ class _Streamer(mcasm.Streamer):
         if sym:
             return sym
 
-        sym = next(self._state.target.symbol_lookup(name), None)
-        if sym:
-            return sym
+        # A module can have several symbols of one name (e.g. local symbols
+        # of different translation units) and they come out of a set, so
+        # the choice among them has to be made here to be repeatable.
+        candidates = list(self._state.target.symbol_lookup(name))
+        if candidates:
+            return min(candidates, key=_symbol_choice_key)
 
         return None
